@@ -15,12 +15,14 @@ def run(ctx):
     return driver.finish(
         ctx, "exploration",
         "for every case of the matrix server certificate {Good, GoodDNS (name-only SAN), IPOnly (address-only SAN), WrongHost, Untrusted (foreign CA), Expired} x "
-        "client insecure flag x client certificate {none, own CA, foreign CA, foreign CA presented regardless of the server's CA list} x server require-client-cert x carrier {tcp+tls, wss, StartTLS over tcp/ws/udp/dns} x "
+        "client insecure flag x client certificate {none, own CA, foreign CA, foreign CA presented regardless of the server's CA list} x server require-client-cert x carrier {tcp+tls, wss, StartTLS over tcp/ws/udp/dns, StartTLS over a UDP endpoint that is protected by a shared secret as well (udp+secret+starttls: both ends hold the same seeded secret)} x "
         "upstream host written as localhost / 127.0.0.1 (dns: the tunnel domain), plus UDP shared secret {equal, different, only server, only client} x {plain, StartTLS}, "
         "plus near misses of a seeded mixed-case secret on the same two carriers (the client holds the server's secret in another letter case - all lower, all upper, one letter, "
         "or the server holds the lower-case form -, one character shorter or longer, an 80-character secret differing in its last character, a trailing blank; and the equal "
         "secrets of the same shapes), the client's address string going through ParseAddress or, seeded, through the JSON configuration value path, "
-        "plus the trust-anchor configuration of either entry {CA inline, CA by file (caCertificateFile), no CA at all (the machine's trust store, which the harness points at the foreign CA)} "
+        "plus, on udp+secret+starttls, a different secret on the client together with the insecure flag / with an acceptable client certificate at a server that requires one, "
+        "plus the trust-anchor configuration of either entry {CA inline, CA by file (caCertificateFile), no CA at all (the machine's trust store, which the harness points at the foreign CA), "
+        "a bundle of several CA certificates - CA one first / in the middle / last among authorities that issued nothing - given inline or by file} "
         "x server certificate {Good, Untrusted} x insecure x client certificate x require-client-cert on every carrier (configurations whose outcome the property does not decide - a peer "
         "chaining to the machine's trust store at an entry without a CA - are left out): "
         "a fresh real server command + client command is started, a logical connection is opened through the client's listener and one probe byte written; "
@@ -28,8 +30,9 @@ def run(ctx):
         "connection through the target's accept queue shows the server never dialled it) / pending (neither within the stall window). Oracle: reference model "
         "admit = (insecure or (chains to client's CA and within validity and matches host as written)) and (not require or client cert signed by server's CA); "
         "an entry without a CA never accepts a peer without a certificate or with one of the run's own CA; "
-        "secrets: admit = the two secrets are the same string. Both directions of disagreement are violations; pending satisfies an expected refusal. Quick = per-carrier single-deviation core + seeded "
-        "greedy pairwise cover + seeded extras (~190 cases) + 28 shared-secret cases + per-carrier trust-anchor core and 30 seeded picks (90), thorough = all 1056 + 8 + the whole trust-anchor list (1062) + the same shared-secret cases. Distinct = the configuration tuple; non-trivial = the probe reached one of the three observations.",
+        "a peer chaining to CA one chains to the configured CA wherever CA one stands in a configured bundle; "
+        "secrets: admit = the two secrets are the same string; on udp+secret+starttls admit = the certificate model and equal secrets (the secret replaces neither the verification of the server certificate nor the client-certificate requirement). Both directions of disagreement are violations; pending satisfies an expected refusal. Quick = per-carrier single-deviation core + seeded "
+        "greedy pairwise cover + seeded extras (~240 cases) + 28 shared-secret cases + per-carrier trust-anchor core (16 configurations, 6 of them with a CA bundle) and 30 seeded picks (142), thorough = the whole matrix (7 carriers, 1248) + the 46 host-less / preceded-upstream / different-secret core cases + the whole trust-anchor list (10 anchor combinations, 2093) + the same shared-secret cases. Distinct = the configuration tuple; non-trivial = the probe reached one of the three observations.",
         ["loopback sockets stand for the network; host names are localhost / 127.0.0.1 / t.example.org",
          "certificates are ECDSA P-256 issued by two run-time CAs; Go's crypto/tls of the local toolchain does the verifying",
          "stdin+tls (documented exception: certificate not verified) and unix carriers (no host name) are excluded"],
